@@ -10,7 +10,6 @@
 
 import sys
 from enum import Enum
-from functools import lru_cache
 from pathlib import Path
 from typing import Literal
 
@@ -147,7 +146,6 @@ def fit_into_array(
     return output
 
 
-@lru_cache(maxsize=128)  # One must add parameter 'maxsize' for Python 3.7
 def load_cropped_and_aligned_image(
     shape: tuple[int, ...],
     filename: str | Path,
@@ -199,7 +197,7 @@ def load_cropped_and_aligned_image(
         allow_smaller_array=allow_smaller_array,
     )
 
-    # Set this array as read-only. It avoids a lot of problems with 'lru_cache'
+    # Set this array as read-only (as it was when this function was cached)
     cropped_and_aligned_image.setflags(write=False)
 
     return cropped_and_aligned_image
